@@ -134,6 +134,39 @@ def make_world():
     return w
 
 
+QUSER = [
+    # a quantized type with units finer than / no multiple of the quantum
+    ['type', 'CQ', 'c0', 'D:0.01'],
+    ['unit', 'CQ', 'cmill', ['term', [['D:0.001', 1], ['c0', 1]]]],
+    ['unit', 'CQ', 'chalf', ['term', [['D:0.005', 1], ['c0', 1]]]],
+    ['unit', 'CQ', 'c1hc', ['term', [['D:0.015', 1], ['c0', 1]]]],
+    ['unit', 'CQ', 'c2c', ['scaled', 'D:0.02', 'c0']],
+    ['unit', 'CQ', 'c100', ['scaled', 'i:100', 'c0']],
+]
+
+
+def part_qunits(mode):
+    """units of quantized types order by their scales, too (whatever the
+    configured rounding mode and the quantum are)"""
+    st = Stats()
+    O.set_mode(mode)
+    w = World(catalogue=True)
+    for ev in QUSER:
+        w.must(ev)
+    for tname in ('CQ', 'DataVolume'):
+        syms = w.tm[tname].units
+        for s1 in syms:
+            for s2 in syms:
+                st.paths += 1
+                st.transitions += 6
+                st.evaluations += 6
+                st.state(('qunits', tname, s1, s2, mode), nontrivial=s1 != s2)
+                for sig, msg in run_units(w, tname, s1, s2):
+                    st.violation(sig + ':quantized-type', msg,
+                                 {'qunits': [tname, s1, s2, mode]})
+    return st
+
+
 def values_for(w, tname, s1, s2, base):
     """amounts for s2 that are equal / near-equal to base*s1"""
     eq = base * w.um[s1].scale / w.um[s2].scale
@@ -201,6 +234,13 @@ def replay(case):
     if 'cmp' in case:
         t, s1, x1, r1, s2, x2, r2 = case['cmp']
         return run_cmp(w, t, s1, F(x1), r1, s2, F(x2), r2)
+    if 'qunits' in case:
+        tname, s1, s2, mode = case['qunits']
+        O.set_mode(mode)
+        for ev in QUSER:
+            w.must(ev)
+        return [(sig + ':quantized-type', m)
+                for sig, m in run_units(w, tname, s1, s2)]
     if 'units' in case:
         return run_units(w, *case['units'])
     if 'sorted' in case:
@@ -222,6 +262,8 @@ def run(tier, seed):
                                    if O.CATALOGUE[t][2] is None
                                    and len(O.CATALOGUE[t][3]) >= 2] + ['NG'],
                      fresh=True))
+    total.merge(pmap(part_qunits, ['ROUND_HALF_EVEN', 'ROUND_HALF_UP',
+                                   'ROUND_UP', 'ROUND_DOWN'], fresh=True))
     total.sample({'cmp': ['Length', 'mi', '1', 'D', 'in', '63360', 'F'],
                   'meaning': '1 mi vs 63360 in (equal), all six operators'})
     total.sample({'cmp': ['Length', 'mi', '1', 'D', 'in',
